@@ -3,6 +3,7 @@
   seeded.py import <Cxx>            copy /tmp/seed_<Cxx>/out/<k> to /verif/seeded/<Cxx>-<k>
   seeded.py verify <id>..           scratch worktree: patch applies, workspace builds, whole test suite passes (unedited)
   seeded.py run <id> [Cyy ..]       apply to /repo, run the quick check(s) (default: the seed's own property), restore /repo
+  seeded.py snap [dir]              frozen copy of /verif for `run` (SEED_SNAP=<dir>): /verif may then be edited while seeds run
 Nothing here is used by a registered check; scratch lives under /tmp and is removed."""
 import json, os, shutil, subprocess, sys, time
 SEED = "/verif/seeded"
@@ -49,9 +50,12 @@ def cmd_run(id, props):
     tmp = "/tmp/sv_%s" % id
     sh("rm -rf %s" % tmp)
     for d in ("vu", "vw", "ru", "rw", "out"): os.makedirs(os.path.join(tmp, d))
-    script = """set -e
-mount -t overlay overlay -o lowerdir=/verif,upperdir={t}/vu,workdir={t}/vw /verif
-mount -t overlay overlay -o lowerdir=/repo,upperdir={t}/ru,workdir={t}/rw /repo
+    snap = os.environ.get("SEED_SNAP")          # a frozen copy of /verif (seeded.py snap): /verif can be edited while seeds run
+    lower = ("mkdir -p {t}/live {t}/cu {t}/cw; mount --bind /verif {t}/live\n"
+             "mount -t overlay overlay -o lowerdir=%s,upperdir={t}/vu,workdir={t}/vw /verif\n"
+             "mkdir -p /verif/.cache; mount -t overlay overlay -o lowerdir={t}/live/.cache,upperdir={t}/cu,workdir={t}/cw /verif/.cache\n" % snap) if snap and os.path.isdir(snap) else \
+            "mount -t overlay overlay -o lowerdir=/verif,upperdir={t}/vu,workdir={t}/vw /verif\n"
+    script = ("set -e\n" + lower + """mount -t overlay overlay -o lowerdir=/repo,upperdir={t}/ru,workdir={t}/rw /repo
 cd /repo && git checkout -q -- . && git apply {seed}/{id}/patch.diff
 cd /verif
 set +e
@@ -59,7 +63,7 @@ for pr in {props}; do
   s=$(date +%s); ./check $pr quick > {t}/out/$pr.log 2>&1; echo "rc=$? t=$(( $(date +%s) - s ))" >> {t}/out/$pr.log
   for f in $(grep '^VIOLATION' {t}/out/$pr.log | sed 's/.*replay=//; s/ .*//' | head -3); do cp $f {t}/out/ 2>/dev/null; done
 done
-""".format(t=tmp, seed=SEED, id=id, props=" ".join(props))
+""").format(t=tmp, seed=SEED, id=id, props=" ".join(props))
     open(tmp + "/run.sh", "w").write(script)
     r = sh("unshare --mount bash %s/run.sh" % tmp)
     if r.returncode != 0: print("namespace run failed:", r.stdout[-1500:])
@@ -104,3 +108,6 @@ if __name__ == "__main__":
     if c == "import": cmd_import(sys.argv[2], int(sys.argv[3]) if len(sys.argv) > 3 else 1)
     elif c == "verify": cmd_verify(sys.argv[2:])
     elif c == "run": sys.exit(cmd_run(sys.argv[2], sys.argv[3:]))
+    elif c == "snap":
+        d = sys.argv[2] if len(sys.argv) > 2 else "/tmp/verif_snap"
+        r = sh("mkdir -p %s && rsync -a --delete --exclude /.cache --exclude /.git /verif/ %s/" % (d, d)); print(r.stdout, "snapshot in", d, "(export SEED_SNAP=%s)" % d)
